@@ -11,7 +11,30 @@ open Dsp.Proto Dsp.Lru
 def parseOp (s : String) : Option (List Op) :=
   let num (r : List Char) : Option Nat := (String.ofList r).toNat?
   let irfftReq (n : Nat) : List Op := if n / 2 == 0 then [] else [Op.irfft n]
+  -- `<n>:<m>`
+  let two (r : List Char) : Option (Nat × Nat) :=
+    match (String.ofList r).splitOn ":" with
+    | [a, b] => do pure (← a.toNat?, ← b.toNat?)
+    | _ => none
+  let p2 (k : Nat) : Nat := 2 ^ Dsp.Primes.nextpow2 k          -- `1 << nextpow2(k)`
   match s.toList with
+  -- the n-point overloads `fft(x, n)` / `rfft(x, n)`: pad, pass on or truncate, then ONE plan request for n whatever the input length m
+  | 'a' :: r => (two r).map (fun (n, _) => [Op.fftC n])
+  | 'b' :: r => (two r).map (fun (n, _) => [Op.fftR n])
+  | 'B' :: r => (two r).map (fun (n, _) => [Op.fftR n])
+  -- built on them: one `fft(segment, nfft)` per segment (the first may miss, the others hit the front entry: same state)
+  | 'W' :: r => (two r).map (fun (n, _) => [Op.fftR n])           -- welch, real input
+  | 'V' :: r => (two r).map (fun (n, _) => [Op.fftC n])           -- welch, complex input
+  | 'M' :: r => (two r).map (fun (n, _) => [Op.fftR n])           -- mscohere
+  | 'P' :: r => (num r).map (fun n => [Op.fftR (p2 n)])           -- sinad -> periodogram: fft(real, 2^nextpow2 n)
+  | 'H' :: r => (two r).map (fun (n, _) => [Op.fftR n, Op.fftC n])   -- hilbert(x, n): fft(real n), ifft(n)
+  | 'x' :: r => (two r).map (fun (n, m) => [Op.fftC (p2 (n + m - 1))])   -- xcorr: fft, fft, ifft at 2^nextpow2(n+m-1)
+  | 'X' :: r => (two r).map (fun (n, m) => [Op.fftC (p2 (n + m - 1))])
+  | 'L' :: r => (two r).map (fun (_, m) => [Op.fftC (p2 (2 * m))])       -- FftFilter(m taps): fft(conj h, 2^nextpow2(2m)); process: fft / ifft of that length
+  | 'd' :: r => (two r).map (fun (n, m) => [Op.fftR (p2 (max n m)), Op.fftC (p2 (max n m))])   -- finddelay: fft(real) twice, ifft
+  | 'y' :: r => (two r).map (fun _ => [])                         -- resample: no transform
+  | 'I' :: r => (two r).map (fun (n, _) => [Op.fftR n, Op.irfft n])   -- fft(x_real), then m times irfft(X, n)
+  | 'Q' :: r => (two r).map (fun _ => [])                         -- welch with nfft not a power of two: rejected before any plan
   | 'c' :: r => (num r).map (fun n => [Op.fftC n])
   | 'f' :: r => (num r).map (fun n => [Op.fftC n])          -- ifft(n): IfftPlan(n) -> FftPlan(n)
   | 'r' :: r => (num r).map (fun n => [Op.fftR n])
